@@ -149,6 +149,14 @@ def flatten_included_defs(supple_nodes):
 
 
 def generate_target_files(emit, serializers, model_nodes):
+    """ Nothing is written unless every requested output can be written. """
+    for basename, nodes in model_nodes.items():
+        for serializer in serializers:
+            try:
+                serializer.check_nodes(nodes)
+            except GenerateError as e:
+                emit.error(str(e))
+
     for basename, nodes in model_nodes.items():
         for serializer in serializers:
             try:
